@@ -94,6 +94,32 @@ CHECKS["C11"] = (
     "findings are listed in known_findings.txt and replayed deterministically; everything else must be clean.",
     LEVEL_NOTE_COMMON + "Embedded signed objects and the other classes' rule tables are decided by the oracle on the real code.",
     "DESIGN.md §6 C11")
+CHECKS["C08"] = (
+    "Rocq proof (soundness of IdToken.verify and of the authorization / token services as an accept-implies-conjunction theorem over tables regenerated from the message schemas; Dolev-Yao unforgeability) + vm_compute correspondence on the message API and the real StandAloneClient services + mutation oracle",
+    "Theorems (Props/C08.v, closed) over Model/IdToken.v, Model/RpState.v and Gen/RpTables.v (c_param tables of IdToken, "
+    "AuthorizationResponse, AccessTokenResponse, OpenIDSchema, ID_TOKEN_VERIFY_ARGS, IDT2REG, NONCE_STORAGE_TIME regenerated from "
+    "/repo/src on every run): an accepted token is signed by a key of the expected issuer (or the client secret for HS*) with the "
+    "expected algorithm, never 'none' unless allowed, names the issuer, lists the client in aud / azp, lies inside the exp / iat / "
+    "skew windows, carries the nonce that was sent, and matches c_hash / at_hash when signed (C08_sound); a verified ID token is "
+    "stored or returned only after verify_id_token succeeded under the client's own settings (C08_authorization_service, "
+    "C08_token_service); a refused operation stores nothing (C08_reject_stores_nothing); the effective algorithm of a static "
+    "client is its configured one (C08_expected_alg). Correspondence: ~16k cases per quick run (313-fault matrix x settings x "
+    "delivery path, random fault pairs, malformed tokens). One recorded finding (unsigned token from the authorization endpoint: "
+    "hashes not checked; a repository test pins it).",
+    LEVEL_NOTE_COMMON + "Byte-level token damage has no model (oracle only). birthdate / address / _claim_* / lang-tag keys, "
+    "non-str alg and floats are Unmodelled.",
+    "DESIGN.md §6 C08")
+CHECKS["C09"] = (
+    "Rocq proof (RP state machine: accept-implies-own-state/issuer, frame over the other sessions, lifted to all operation sequences by induction) + vm_compute correspondence on real RP instances (RPHandler, several issuers) + recombination oracle",
+    "Theorems (Props/C09.v, closed) over Model/RpState.v: an accepted authorization response has its state in the database of the "
+    "client it was delivered to, the stored issuer is that client's issuer and iss / client_id response parameters are its own "
+    "(C09_accept_own); a refused response changes nothing (C09_reject_changes_nothing); an accepted one changes only its own state "
+    "record (C09_frame_db, C09_frame_client); a pending flow's nonce binding survives every operation of every other flow "
+    "(C09_nonce_binding_stable); lifted to all histories (C09_history, C09_history_frame_db, C09_history_frame_map, "
+    "C09_history_states_issued). Correspondence: ~590 traces / 7k operations per quick run over 1-3 issuers with recombined "
+    "genuine response parameters, unknown and mutated states.",
+    LEVEL_NOTE_COMMON + "Back-channel logout and clear_session are not modelled; HTTP statuses other than 200 Unmodelled.",
+    "DESIGN.md §6 C09")
 CHECKS["C12"] = (
     "Rocq proof (per-dimension compatibility over tables regenerated from both halves, characterisation of the completing cells of the whole configuration product, view projections) + vm_compute correspondence on real RP<->OP flows + completion/view oracle",
     "Theorems (Props/C12.v, 26, closed) over Model/Interop.v and Gen/Supports.v (both halves' _supports, authn-method and PKCE tables, "
